@@ -252,6 +252,36 @@ func runC07(c *Ctx, w *World, r *Report) {
 			if !okBuf {
 				bad = "the header buffer is not make([]byte, fixedSize)"
 			}
+			// the error ReadHeader hands back is the read's own error: io.ReadFull already says io.EOF for "nothing was
+			// there" and io.ErrUnexpectedEOF for a partial header; re-labelling one as the other here (for padding,
+			// for convenience) turns a truncated frame into a clean end of stream or the reverse
+			if bad == "" {
+				errV := ssa.Value(nil)
+				if ios[0].Call.Referrers() != nil {
+					for _, ref := range *ios[0].Call.Referrers() {
+						if ex, ok := ref.(*ssa.Extract); ok && ex.Index == 1 {
+							errV = ex
+						}
+					}
+				}
+				for _, ret := range returnsOf(fn) {
+					if len(ret.Results) < 3 {
+						continue
+					}
+					for _, lf := range w.FA(fn).leavesOf(ret.Results[2], ret.Block(), 0) {
+						v := unwrapErr(lf.V)
+						if c, isC := v.(*ssa.Const); isC && c.IsNil() {
+							continue
+						}
+						if errV != nil && v == errV {
+							continue
+						}
+						if _, isG := isGlobalErrVarLoad(v); isG {
+							bad = "ReadHeader returns a package-level error variable in place of the error of its read at " + w.InstrPos(ret) + ": the io.EOF / io.ErrUnexpectedEOF distinction of io.ReadFull (nothing there / a cut header) is re-labelled"
+						}
+					}
+				}
+			}
 		}
 		r.Check(bad == "", "R-HDRREAD", fname, w.Pos(fn.Pos()), bad, "io.ReadFull(r, make([]byte, fixedSize))")
 	}
